@@ -7,8 +7,10 @@ import Cx.Proofs.Fast
   pattern (lazy `cls+?`, lazy / `{0}` / non-ASCII composite part, case-folded anchored literal) or that the matcher now
   answers what the reference matcher answers (`.` vs `\n`, Latin-1 literal; the first-byte set of a case-folded or
   non-ASCII literal / class) — the general exactness theorems of Cx.Proofs.Fast no longer carry the corresponding
-  hypotheses.  The first-byte filter keeps four witnesses of its remaining defect (a zero-width assertion in first
-  position adds no byte but leaves the set complete).
+  hypotheses.  The first-byte filter's former defect (a zero-width assertion in first position added no byte but left
+  the set complete) is fixed too: its four witnesses are `…_fixed` theorems now (the set is `nil`, or contains the byte);
+  what is left are the witnesses of the two side conditions of `fbFrag` (`firstBytes_runeError_counterexample`: a
+  property of the reference semantics; `firstBytes_negativeMin_needed`: a parser invariant).
   The reference for "the correct answer" is the fragment specification where one exists (`plusFind`, `compFind` over
   `astParts`, `anchoredSpecB`) and the general leftmost-first reference matcher `Ref.refFind` otherwise; both are
   checked against Go's stdlib `regexp` by the harness.
@@ -299,7 +301,7 @@ theorem branchDispatch_depth_needed :
     Ref.refFind re #[97] 0 = none := by
   decide
 
-/-! ### ExtractFirstBytes (after the case-folding / multi-byte fix of nfa/firstbytes.go) -/
+/-! ### ExtractFirstBytes (after the case-folding / multi-byte fix and the assertion fix of nfa/firstbytes.go) -/
 
 /-- a three-entry excerpt of the `unicode.SimpleFold` orbits (what the loop appends for `A`, `K`, `S`), enough for the
     witnesses below; it satisfies the part of `OrbitSound` they exercise -/
@@ -349,69 +351,111 @@ theorem firstBytes_latin1_fixed :
   decide
 
 set_option maxRecDepth 1000000 in
-/-- FINDING, still present (a zero-width alternative contributes no byte but leaves the set "complete"):
-    `^(?:ab|^)+x`: the set is `{'a'}`, so "x" is rejected although the pattern matches it; outside `fbFrag`. -/
-theorem firstBytes_emptyBranch_counterexample :
+/-- FIXED (was: a zero-width alternative contributed no byte but left the set "complete"): `^(?:ab|^)+x` gave `{'a'}`, so
+    "x" was rejected although the pattern matches it (`[0 1]`).  The bare `^` branch now makes the extraction fail: `nil`,
+    no filter. -/
+theorem firstBytes_emptyBranch_fixed :
     let re := Re.cat [Re.leaf .beginText, Re.plusOf (Re.alt [Re.lit [97, 98], Re.leaf .beginText]), Re.lit [120]]
-    fbFrag 21 re = false ∧
-    (extractFirstBytes cexOrbit re).map (fun fb => (fb.isUseful, fb.contains 120)) = some (true, false) ∧
+    fbFrag 21 re = true ∧
+    extractFirstBytes cexOrbit re = none ∧
     Ref.refFind re #[120] 0 = some (0, 1) := by
   decide
 
 set_option maxRecDepth 1000000 in
-/-- FINDING, still present (`\A` as an alternative): `^(?:a|^)`: the set is `{'a'}`, complete and useful, so "b" is
-    rejected — but the pattern matches the empty string at offset 0 of "b" (`regexp`: `[0 0]`). -/
-theorem firstBytes_beginAnchor_counterexample :
+/-- FIXED (was: `\A` as an alternative answered `true` without a byte): `^(?:a|^)` gave `{'a'}`, complete and useful, so
+    "b" was rejected — but the pattern matches the empty string at offset 0 of "b" (`regexp`: `[0 0]`).  Now `nil`. -/
+theorem firstBytes_beginAnchor_fixed :
     let re := Re.cat [Re.leaf .beginText, Re.alt [Re.lit [97], Re.leaf .beginText]]
-    fbFrag 21 re = false ∧
+    fbFrag 21 re = true ∧
+    extractFirstBytes cexOrbit re = none ∧
+    Ref.refFind re #[98] 0 = some (0, 0) := by
+  decide
+
+set_option maxRecDepth 1000000 in
+/-- FIXED (was: `(?m)$` in first position answered `true` without a byte): `^(?m:x|$\na)` gave `{'x'}`, so "\na" was
+    rejected although the pattern matches it (`$` holds before the line feed, then `\na` is consumed: `[0 2]`); the
+    concatenation now skips the leading `$`, the set is `{'\n','x'}` and "\na" passes.  `^(?m:a|$)` (bare `$` branch,
+    matches "\nb" with `[0 0]`) now gives `nil`. -/
+theorem firstBytes_endLine_fixed :
+    let re := Re.cat [Re.leaf .beginText, Re.alt [Re.lit [120], Re.cat [Re.leaf .endLine, Re.lit [10, 97]]]]
+    let r2 := Re.cat [Re.leaf .beginText, Re.alt [Re.lit [97], Re.leaf .endLine]]
+    fbFrag 21 re = true ∧
+    (extractFirstBytes cexOrbit re).map (fun fb => (fb.isUseful, fb.count, fb.contains 10, fb.contains 120)) =
+      some (true, 2, true, true) ∧
+    Ref.refFind re #[10, 97] 0 = some (0, 2) ∧
+    fbFrag 21 r2 = true ∧
+    extractFirstBytes cexOrbit r2 = none ∧
+    Ref.refFind r2 #[10, 98] 0 = some (0, 0) := by
+  decide
+
+set_option maxRecDepth 1000000 in
+/-- FIXED (was: an anchor inside a capture group was not skipped by the concatenation loop and answered `true` without a
+    byte): `^(?:x|(^)a)` gave `{'x'}`, so "a" was rejected although the pattern matches it.  `(^)` is now recognised as
+    assertion-only and skipped: the set is `{'a','x'}`.  Likewise `(?:^)+`, `((\A)$)`; a concatenation of nothing but
+    such elements gives `nil`. -/
+theorem firstBytes_captureAnchor_fixed :
+    let re := Re.cat [Re.leaf .beginText, Re.alt [Re.lit [120], Re.cat [Re.cap (Re.leaf .beginText), Re.lit [97]]]]
+    let r2 := Re.cat [Re.plusOf (Re.leaf .beginLine), Re.cap (Re.cat [Re.cap (Re.leaf .beginText), Re.leaf .endLine]), Re.lit [97]]
+    let r3 := Re.cat [Re.plusOf (Re.leaf .beginLine), Re.cap (Re.cat [Re.cap (Re.leaf .beginText), Re.leaf .endLine])]
+    fbFrag 21 re = true ∧
+    (extractFirstBytes cexOrbit re).map (fun fb => (fb.isUseful, fb.count, fb.contains 97, fb.contains 120)) =
+      some (true, 2, true, true) ∧
+    Ref.refFind re #[97] 0 = some (0, 1) ∧
+    (extractFirstBytes cexOrbit r2).map (fun fb => (fb.isUseful, fb.count, fb.contains 97)) = some (true, 1, true) ∧
+    extractFirstBytes cexOrbit r3 = none := by
+  decide
+
+set_option maxRecDepth 1000000 in
+/-- what `isAssertionOnly` does NOT skip (each can hold without consuming, but is not one of the four anchors, or can be
+    skipped altogether): `\b`, `\B`, the empty regexp, `(?:^)*`, `(?:^)?`, `(?:^){2}`, `^|$` — in first position of a
+    concatenation the extraction recurses into them and fails: `nil`, never an unsound set. -/
+theorem firstBytes_notAssertionOnly_nil :
+    let a := Re.lit [97]
+    [Re.leaf .wordBoundary, Re.leaf .noWordBoundary, Re.leaf .emptyMatch, Re.starOf (Re.leaf .beginText),
+     Re.questOf (Re.leaf .beginText), Re.repOf (Re.leaf .beginText) 2 2,
+     Re.alt [Re.leaf .beginText, Re.leaf .endText]].all (fun z =>
+       !isAssertionOnly z && (extractFirstBytes cexOrbit (Re.cat [z, a])).isNone) = true := by
+  decide
+
+set_option maxRecDepth 1000000 in
+/-- why `fbFrag` excludes a literal starting with U+FFFD (the one remaining condition on parsed patterns): `^\x{FFFD}`
+    gives `{0xEF}`, but the reference matcher (like `regexp`) decodes the ill-formed byte FF as U+FFFD and matches the
+    haystack `FF`.  (coregex's own engines compile the literal to the byte sequence EF BF BD and do not match `FF`
+    either, so the filter changes no coregex answer here.)  The pattern satisfies `fbMinOK`, and `FF` is exactly the kind
+    of haystack `firstBytes_filter_sound_wellformed` excludes; the properly encoded U+FFFD (EF BF BD) is well-formed and
+    passes the filter. -/
+theorem firstBytes_runeError_counterexample :
+    let re := Re.cat [Re.leaf .beginText, Re.lit [0xFFFD]]
+    fbFrag 21 re = false ∧ fbMinOK 21 re = true ∧
+    (extractFirstBytes cexOrbit re).map (fun fb => (fb.isUseful, fb.contains 0xEF, fb.contains 0xFF)) = some (true, true, false) ∧
+    Ref.refFind re #[0xFF] 0 = some (0, 1) ∧ ¬ WellFormedAt #[0xFF] 0 ∧
+    Ref.refFind re #[0xEF, 0xBF, 0xBD] 0 = some (0, 3) ∧ WellFormedAt #[0xEF, 0xBF, 0xBD] 0 := by
+  decide
+
+set_option maxRecDepth 1000000 in
+/-- why `fbFrag` asks for `Min ≥ 0` (a PARSER INVARIANT: `syntax.Parse` never produces a negative `Min`): on the
+    hand-built node `a{-1,2}` the Go test `Min == 0` fails and the set is `{'a'}`, while the reference matcher reads a
+    negative minimum as 0 and matches the empty prefix of "b". -/
+theorem firstBytes_negativeMin_needed :
+    let re := Re.cat [Re.leaf .beginText, Re.repOf (Re.lit [97]) (-1) 2]
+    fbFrag 21 re = false ∧ fbMinOK 21 re = false ∧
     (extractFirstBytes cexOrbit re).map (fun fb => (fb.isUseful, fb.contains 98)) = some (true, false) ∧
     Ref.refFind re #[98] 0 = some (0, 0) := by
   decide
 
 set_option maxRecDepth 1000000 in
-/-- FINDING, still present (`(?m)$` in first position): `^(?m:x|$\na)`: the set is `{'x'}`, so "\na" is rejected although
-    the pattern matches it (`$` holds before the line feed, then `\na` is consumed: `[0 2]`); likewise `^(?m:a|$)` on
-    "\nb" (`[0 0]`). -/
-theorem firstBytes_endLine_counterexample :
-    let re := Re.cat [Re.leaf .beginText, Re.alt [Re.lit [120], Re.cat [Re.leaf .endLine, Re.lit [10, 97]]]]
-    let r2 := Re.cat [Re.leaf .beginText, Re.alt [Re.lit [97], Re.leaf .endLine]]
-    fbFrag 21 re = false ∧
-    (extractFirstBytes cexOrbit re).map (fun fb => (fb.isUseful, fb.contains 10)) = some (true, false) ∧
-    Ref.refFind re #[10, 97] 0 = some (0, 2) ∧
-    fbFrag 21 r2 = false ∧
-    (extractFirstBytes cexOrbit r2).map (fun fb => (fb.isUseful, fb.contains 10)) = some (true, false) ∧
-    Ref.refFind r2 #[10, 98] 0 = some (0, 0) := by
-  decide
-
-set_option maxRecDepth 1000000 in
-/-- FINDING, still present (an anchor inside a capture group is not skipped by the concatenation loop): `^(?:x|(^)a)`:
-    the set is `{'x'}`, so "a" is rejected although the pattern matches it. -/
-theorem firstBytes_captureAnchor_counterexample :
-    let re := Re.cat [Re.leaf .beginText, Re.alt [Re.lit [120], Re.cat [Re.cap (Re.leaf .beginText), Re.lit [97]]]]
-    fbFrag 21 re = false ∧
-    (extractFirstBytes cexOrbit re).map (fun fb => (fb.isUseful, fb.contains 97)) = some (true, false) ∧
-    Ref.refFind re #[97] 0 = some (0, 1) := by
-  decide
-
-set_option maxRecDepth 1000000 in
-/-- why `fbFrag` excludes a literal starting with U+FFFD: `^\x{FFFD}` gives `{0xEF}`, but the reference matcher (like
-    `regexp`) decodes the ill-formed byte FF as U+FFFD and matches the haystack `FF`.  (coregex's own engines compile the
-    literal to the byte sequence EF BF BD and do not match `FF` either, so the filter changes no coregex answer here.) -/
-theorem firstBytes_runeError_counterexample :
-    let re := Re.cat [Re.leaf .beginText, Re.lit [0xFFFD]]
-    fbFrag 21 re = false ∧
-    (extractFirstBytes cexOrbit re).map (fun fb => (fb.isUseful, fb.contains 0xEF, fb.contains 0xFF)) = some (true, true, false) ∧
-    Ref.refFind re #[0xFF] 0 = some (0, 1) := by
-  decide
-
-set_option maxRecDepth 1000000 in
-/-- `\z` / non-multiline `$` in first position IS in the fragment: `^(?:a|$)` gives `{'a'}`; the pattern matches only the
-    empty haystack besides "a…", and every caller guards the filter with `len(haystack) > 0`. -/
-theorem firstBytes_endText_in_fragment :
+/-- `\z` / non-multiline `$` as an alternative: `^(?:a|$)` used to give `{'a'}` (harmless: the pattern matches only the
+    empty haystack besides "a…", and every caller guards the filter with `len(haystack) > 0`); a bare assertion now
+    always makes the set unusable: `nil`.  As the leading element of a concatenation it is skipped: `^(?:a|$b)` gives
+    `{'a','b'}` (the second branch never matches). -/
+theorem firstBytes_endText_nil :
     let re := Re.cat [Re.leaf .beginText, Re.alt [Re.lit [97], Re.leaf .endText]]
+    let r2 := Re.cat [Re.leaf .beginText, Re.alt [Re.lit [97], Re.cat [Re.leaf .endText, Re.lit [98]]]]
     fbFrag 21 re = true ∧
-    (extractFirstBytes cexOrbit re).map (fun fb => (fb.isUseful, fb.contains 97)) = some (true, true) ∧
-    Ref.refFind re #[] 0 = some (0, 0) ∧ Ref.refFind re #[98] 0 = none := by
+    extractFirstBytes cexOrbit re = none ∧
+    Ref.refFind re #[] 0 = some (0, 0) ∧ Ref.refFind re #[98] 0 = none ∧
+    (extractFirstBytes cexOrbit r2).map (fun fb => (fb.isUseful, fb.count, fb.contains 97, fb.contains 98)) =
+      some (true, 2, true, true) := by
   decide
 
 set_option maxRecDepth 1000000 in
